@@ -645,10 +645,13 @@ func (cmd *Command) printDiagnostics(cs []*lint.Analyzer, diagnostics []diagnost
 			if di.Message != dj.Message {
 				return di.Message < dj.Message
 			}
-			if di.BuildName != dj.BuildName {
-				return di.BuildName < dj.BuildName
+			// BuildName has to be the least significant key: the code below
+			// merges the build names of adjacent diagnostics that are
+			// otherwise identical.
+			if di.Category != dj.Category {
+				return di.Category < dj.Category
 			}
-			return di.Category < dj.Category
+			return di.BuildName < dj.BuildName
 		})
 
 		filtered := []diagnostic{
